@@ -66,16 +66,22 @@ func ValidateAggregateAndProof(ctx context.Context, signedAgg *phase0.SignedAggr
 		return nil, GossipValidatorResult{REJECT, fmt.Errorf("attestation has no participants")}
 	}
 
-	// [IGNORE] The block being voted for (aggregate.data.beacon_block_root) has been seen (via both gossip and non-gossip sources)
-	// (a client MAY queue aggregates for processing once block is retrieved).
-	// TODO
-
 	// [REJECT] The block being voted for (aggregate.data.beacon_block_root) passes validation.
 	if aggVal.IsBadBlock(att.Data.BeaconBlockRoot) {
 		return nil, GossipValidatorResult{REJECT, errors.New("aggregate voted for invalid block")}
 	}
 
 	ch := aggVal.Chain()
+
+	// [IGNORE] The block being voted for (aggregate.data.beacon_block_root) has been seen (via both gossip and non-gossip sources)
+	// (a client MAY queue aggregates for processing once block is retrieved).
+	blockRef, ok := ch.ByBlock(att.Data.BeaconBlockRoot)
+	if !ok {
+		return nil, GossipValidatorResult{IGNORE, errors.New("aggregate voted for unknown block")}
+	}
+	if refSlot := blockRef.Step().Slot(); refSlot > att.Data.Slot {
+		return nil, GossipValidatorResult{REJECT, errors.New("aggregate voted for block in the future")}
+	}
 
 	// [REJECT] The aggregate attestation's target block is an ancestor of the block named in the LMD vote --
 	// i.e. get_ancestor(store, aggregate.data.beacon_block_root, compute_start_slot_at_epoch(aggregate.data.target.epoch))
@@ -84,6 +90,14 @@ func ValidateAggregateAndProof(ctx context.Context, signedAgg *phase0.SignedAggr
 		return nil, GossipValidatorResult{IGNORE, errors.New("unknown block and/or target, cannot check if in subtree")}
 	} else if !inSubtree {
 		return nil, GossipValidatorResult{REJECT, errors.New("block not in subtree of target")}
+	}
+	// Being an ancestor is not enough: the target must be the checkpoint block of its epoch on the chain of the vote.
+	// target epoch was already validated to match the slot, which was validated to be within normal range. No overflows.
+	targetSlot, _ := spec.EpochStartSlot(att.Data.Target.Epoch)
+	if ckptRoot, ok := checkpointBlockRoot(ch, att.Data.BeaconBlockRoot, blockRef, targetSlot, uint64(spec.SLOTS_PER_EPOCH)); !ok {
+		return nil, GossipValidatorResult{IGNORE, errors.New("cannot find the checkpoint block of the target epoch for the voted block")}
+	} else if ckptRoot != att.Data.Target.Root {
+		return nil, GossipValidatorResult{REJECT, fmt.Errorf("target %s is not the checkpoint block %s of epoch %d", att.Data.Target.Root, ckptRoot, att.Data.Target.Epoch)}
 	}
 
 	// [REJECT] The current finalized_checkpoint is an ancestor of the block defined
